@@ -569,7 +569,7 @@ def register(reg):
         modifies = ReceiveEvents.modifies
         raises = IO_RAISES + [RPE, CNA, H2_PROTOCOL_ERROR, "Cancelled"]
         raises_props = ("C15",)
-        call_raises = IO_RAISES + [RPE, CNA, H2_PROTOCOL_ERROR, "Cancelled", "ValueError"]
+        call_raises = IO_RAISES + [RPE, CNA, H2_PROTOCOL_ERROR, "Cancelled"]
 
         def callsite(self, c, ev):
             if ev.name == "call:" + H2 + "._receive_stream_event":
@@ -873,9 +873,9 @@ def register(reg):
         props = ("C03", "C13", "C15", "C12")
         params = {"stream_id": "int"}
         modifies = ("NS.written", "X.ver", "X.queue_ver", "X.next_sid", "H2._write_exception", "H2._connection_error")
-        raises = NET_WRITE_RAISES + [H2_PROTOCOL_ERROR, "Cancelled", "IndexError"]
+        raises = NET_WRITE_RAISES + [H2_PROTOCOL_ERROR, "Cancelled", LPE]
         raises_props = ("C15",)
-        call_raises = NET_WRITE_RAISES + [H2_PROTOCOL_ERROR, "Cancelled", "IndexError"]
+        call_raises = NET_WRITE_RAISES + [H2_PROTOCOL_ERROR, "Cancelled", LPE]
 
         def h2_headers(self, c):
             req = c.args["request"]
@@ -918,6 +918,11 @@ def register(reg):
         def exc_checks(self, c, exc):
             if exc.cls == "IndexError":
                 return [("request_has_a_host_header", ("C03", "C15"), False)]
+            if exc.cls == LPE and not exc.tag.get("from"):
+                # C03: a head that cannot be encoded is rejected with LocalProtocolError and nothing of it is written
+                _, hosts = self.h2_headers(c)
+                return [("rejected_only_without_host_and_before_anything_is_sent", ("C03", "C15"),
+                         z3.And(z3.Length(hosts) == 0, z3.BoolVal(not c.events("h2.send_headers") and not c.events("net.write"))))]
             return []
 
     # ================================================================== _send_connection_init
